@@ -11,7 +11,8 @@ EXPLANATION = (
     "the empty cause set must be accepted (keeps the probe honest)."
 )
 ASSUMPTIONS = ["bounds: histories of <= 4 operations, 2 pool classes"]
-BUDGET = {"quick": 150, "thorough": 900}
+BUDGET = {"quick": 240, "thorough": 900}
+SOFT_S = {"quick": 60}  # few states, many probe alternatives per state: cells are slow but small
 MON = ["C09"]
 P = ["probe_reject"]
 
